@@ -79,7 +79,7 @@ class KeySys(HSystem):
         bl = H.blocklen(a)
         self.bufkeys = [ramp(20, 3, 1), expander(20, 5)]
         self.lbufkeys = [ramp(bl + 9, 5, 2), expander(bl + 9, 6)]
-        self.keys = {'short': b'key', 'exact': ramp(bl, 7, 1), 'long': expander(bl + 9, 3), 'empty': b'', 'long2': ramp(2 * bl, 9, 4)}
+        self.keys = {'short': b'key', 'prefix': b'ke', 'exact': ramp(bl, 7, 1), 'long': expander(bl + 9, 3), 'empty': b'', 'long2': ramp(2 * bl, 9, 4)}
 
     def fresh(self):
         from crysp.hmac import HMAC
@@ -93,7 +93,7 @@ class KeySys(HSystem):
         return (o['key'], gcanon(o['o']), bytes(o['buf']), bytes(o['lbuf']))
 
     def events(self, o):
-        return [('setkey', k) for k in self.keys] + [('mac', 0), ('mac', 1), ('setkey-buf', 0), ('setkey-buf', 1), ('scribble-buf',), ('setkey-long-buf', 0), ('setkey-long-buf', 1), ('setkey-long-bytes', 0),
+        return [('setkey', k) for k in self.keys] + [('mac', 0), ('mac', 1), ('mac', 2), ('setkey-buf', 0), ('setkey-buf', 1), ('scribble-buf',), ('setkey-long-buf', 0), ('setkey-long-buf', 1), ('setkey-long-bytes', 0),
                                                      ('foreign', 'plain'), ('foreign', 'options'), ('foreign', 'unfinished')]
 
     def apply(self, o, ev):
@@ -128,11 +128,11 @@ class KeySys(HSystem):
         if ev[0] == 'setkey':
             o['key'] = ev[1]
             return o['o'].setkey(self.keys[ev[1]])
-        return o['o']([b'message', ramp(H.blocklen(self.a) + 3, 3, 3)][ev[1]])
+        return o['o']([b'message', ramp(H.blocklen(self.a) + 3, 3, 3), b'ymessage'][ev[1]])     # b'key' + b'message' == b'ke' + b'ymessage'
 
     def judge(self, ctx, hist, ev, res, o):
         if ev[0] == 'mac':
-            m = [b'message', ramp(H.blocklen(self.a) + 3, 3, 3)][ev[1]]
+            m = [b'message', ramp(H.blocklen(self.a) + 3, 3, 3), b'ymessage'][ev[1]]
             ctx.eq('C13/%s/mac-after-setkey-sequence' % self.a, res, ('ok', rfc2104(self.a, self.keys[o['key']] if not isinstance(o['key'], tuple) else (self.bufkeys if o['key'][0] == 'buf' else self.lbufkeys)[o['key'][1]], m)))
         elif ev[0] == 'foreign':
             pass                                        # the hash objects themselves are C01 / C11 / C14
@@ -141,7 +141,7 @@ class KeySys(HSystem):
 
 
 def systems(tier):
-    algs = [a for a in ALGS if a != 'md6_256'] if tier == 'thorough' else ['md5', 'sha1', 'sha256', 'sha512', 'blake256', 'blake2s']
+    algs = [a for a in ALGS if a != 'md6_256'] if tier == 'thorough' else ['md5', 'sha256', 'blake256', 'blake2s']
     return {a: KeySys(a) for a in algs}
 
 
@@ -169,8 +169,8 @@ def subchecks():
     return [firstuse_sub(PROP_, fu_targets, every=2),
         Sub('key-lengths', pts_keys, run_keys, engine='P',
             bound='17 hashes (MD4, MD5, SHA-0, SHA-1, SHA-224/256/384/512, SHA-512/224, SHA-512/256, BLAKE-224/256/384/512, BLAKE2s, BLAKE2b, MD6-256: every hash class with a block size) x every key length 0..3 blocks (quick: 17 lengths around 0, the digest size, 1, 2 and 3 blocks) x 2 key patterns x 4 messages (empty, 3 bytes, one block, one block+1; 5 blocks-1 at 5 key lengths)'),
-        hsub('setkey-histories', systems, lambda tier: 3 if tier == 'quick' else 4, split=lambda tier: 4 if tier == 'quick' else 16,
-             bound='one HMAC object per hash (quick: 6 hashes), events setkey(short/exact/long/empty/2 blocks), setkey with one caller-owned bytearray overwritten in place, direct use of the shared hash object by the caller (one-shot, with salt / bit length, an unfinished update), and two MACs, all histories to depth 3 (thorough 4), state = (key class, stored key)'),
+        hsub('setkey-histories', systems, lambda tier: 3 if tier == 'quick' else 4, split=lambda tier: 8 if tier == 'quick' else 21,
+             bound='one HMAC object per hash (quick: 4 hashes), events setkey(short/exact/long/empty/2 blocks, and a key that is a prefix of another with a message that makes key||message coincide), setkey with one caller-owned bytearray overwritten in place, direct use of the shared hash object by the caller (one-shot, with salt / bit length, an unfinished update), and two MACs, all histories to depth 3 (thorough 4), state = (key class, stored key)'),
     ]
 
 
